@@ -270,3 +270,52 @@ func Present(xml string, compress bool, level int) string {
 	}
 	return B64(Deflate([]byte(xml), level))
 }
+
+// ---- hand-made DEFLATE streams ---------------------------------------------------------
+
+// StoredDeflate writes data as stored (BTYPE=00) blocks of the given sizes (the last size is
+// extended or cut to fit); hdr gives the first byte of block i (its low three bits are set
+// by this function: BFINAL and BTYPE=00; the other five bits are padding a decoder ignores).
+// emptyFinal appends a zero-length final block instead of marking the last data block final.
+func StoredDeflate(data []byte, sizes []int, hdr func(i int) byte, emptyFinal bool) []byte {
+	var out []byte
+	rest := data
+	for i := 0; ; i++ {
+		n := len(rest)
+		if i < len(sizes)-1 && sizes[i] < n {
+			n = sizes[i]
+		}
+		if n > 65535 {
+			n = 65535
+		}
+		last := n == len(rest)
+		b := hdr(i) &^ 7
+		if last && !emptyFinal {
+			b |= 1
+		}
+		out = append(out, b, byte(n), byte(n>>8), ^byte(n), ^byte(n>>8))
+		out = append(out, rest[:n]...)
+		rest = rest[n:]
+		if last {
+			break
+		}
+	}
+	if emptyFinal {
+		out = append(out, 1, 0, 0, 0xff, 0xff)
+	}
+	return out
+}
+
+// TextCleanBlockLen reports whether a stored block of length n has a header whose LEN and
+// NLEN octets are characters that may appear in XML text and attribute values (so that the
+// stream, read as a document, stays well-formed across the block boundary).
+func TextCleanBlockLen(n int) bool {
+	l0, l1 := n&0xff, n>>8
+	if l0 < 0x20 || l0 > 0x3d || l0 == 0x22 || l0 == 0x26 || l0 == 0x27 || l0 == 0x3c {
+		return false
+	}
+	return l1 >= 0x40 && l1 <= 0x7e
+}
+
+// TextCleanHeaders are first octets of non-final stored blocks that are plain ASCII characters.
+var TextCleanHeaders = []byte{0x20, 0x28, 0x30, 0x38, 0x40, 0x48, 0x50, 0x58, 0x60, 0x68, 0x70, 0x78}
